@@ -128,6 +128,7 @@ MODELS = {
     "C12": MOVE,
     "C15": [],
     "C18": [STACK[0], ITER[2]],
+    "C13": [M("Storage", "MCStorage.cfg"), M("Storage", "MCStorage_regress.cfg", "witness"), M("Storage", "MCStorage_wit.cfg", "witness")],
 }
 
 # C19 / table part of C18 (plans_tables.py): arithmetic definitions vs. bit tricks, min_block_size layout
@@ -153,3 +154,26 @@ MODELS.setdefault("C16", []).extend([
     ModelRun("SmallChunkSearch", "MCSmallChunkSearch_W1.cfg", "witness"),
     ModelRun("SmallChunkSearch", "MCSmallChunkSearch_W2.cfg", "witness"),
     ModelRun("SmallChunkSearch", "MCSmallChunkSearch_W3.cfg", "witness")])
+
+# C20 (plans_construct.py): rollback mechanisms of the object-creating helpers (smart_ptr.hpp detail::construct,
+# raw_ptr guard, joint_array::builder, joint_ptr::create), n = 0..4 x every throw position.  "witness"
+# = the configuration's invariant must be VIOLATED: reachability witness, seeded-defect regressions, and the
+# design-level statement of finding D1 (~builder does not unwind when the first element throws).
+MODELS.setdefault("C20", []).extend([
+    ModelRun("Construct", "MCConstruct.cfg"), ModelRun("Construct", "MCConstruct_16.cfg", tier="thorough"),
+    ModelRun("Construct", "MCConstruct_witness.cfg", "witness"),
+    ModelRun("Construct", "MCConstruct_first.cfg", "witness"),
+    ModelRun("Construct", "MCConstruct_bug_rollback_one_too_few.cfg", "witness"),
+    ModelRun("Construct", "MCConstruct_bug_create_no_dealloc.cfg", "witness")])
+# C11 (plans_construct.py): joint stack bump allocation with capacity check, last-allocation-only release,
+# release with sizeof(T)+capacity, clone sized by capacity_used.  MCJoint_clone_residue / _empty state the
+# findings D2 / D3 (clone_joint under-sizes the copy) and must be violated while they exist.
+MODELS.setdefault("C11", []).extend([
+    ModelRun("Joint", "MCJoint.cfg"), ModelRun("Joint", "MCJoint_raw.cfg"),
+    ModelRun("Joint", "MCJoint_big.cfg", tier="thorough"), ModelRun("Joint", "MCJoint_raw_big.cfg", tier="thorough"),
+    ModelRun("Joint", "MCJoint_witness.cfg", "witness"), ModelRun("Joint", "MCJoint_witness_reuse.cfg", "witness"),
+    ModelRun("Joint", "MCJoint_witness_overflow.cfg", "witness"),
+    ModelRun("Joint", "MCJoint_clone_residue.cfg", "witness"), ModelRun("Joint", "MCJoint_clone_empty.cfg", "witness"),
+    ModelRun("Joint", "MCJoint_bug_bound_off_by_one.cfg", "witness"), ModelRun("Joint", "MCJoint_bug_always_unwind.cfg", "witness"),
+    ModelRun("Joint", "MCJoint_bug_release_sizeof_only.cfg", "witness"),
+    ModelRun("Joint", "MCJoint_bug_alignment_dropped.cfg", "witness")])
